@@ -273,3 +273,28 @@ func VC01EntryHostile() {
 		vrt.Assert("no-raw-control-byte", c >= 0x20)
 	}
 }
+
+// Custom time layouts made of arbitrary literal bytes, for the entry time and for a time field.
+//
+//verif: prop=C01,C02 bounds="TimeEncoderOfLayout(l) with l = 2 symbolic bytes that cannot start a reference-time element (echoed verbatim by time.Format: documented), for the entry time and one time field; layouts mixing reference elements and hostile literals are outside the claim"
+func VC01TimeLayout() {
+	l := vrt.String("layout", 2)
+	cfg := EncoderConfig{TimeKey: "T", MessageKey: "M", EncodeTime: TimeEncoderOfLayout(l)}
+	ent := Entry{Level: InfoLevel, Message: "m", Time: time.Unix(5, 0)}
+	enc := NewJSONEncoder(cfg)
+	buf, err := enc.EncodeEntry(ent, []Field{{Key: "when", Type: TimeType, Integer: 7, Interface: time.UTC}})
+	vrt.Assert("encode-returns-nil", err == nil)
+	out := buf.Bytes()
+	vrt.Observe("line", out)
+	root, ref := vNewRef()
+	ref.add("T", xs(l))
+	ref.add("M", xs("m"))
+	ref.add("when", xs(l))
+	v, perr := vrt.ParseJSONObjectLine(out, "\n", false)
+	if perr != "" {
+		vrt.Tag("parse=" + perr)
+		vrt.Fail("one-valid-json-object-then-line-ending")
+		return
+	}
+	vMatch("$", v, root)
+}
